@@ -9,6 +9,7 @@ import (
 	"path/filepath"
 	"sort"
 	"strings"
+	"sync"
 
 	"golang.org/x/tools/go/packages"
 	"golang.org/x/tools/go/ssa"
@@ -34,6 +35,8 @@ type Program struct {
 	Lemmas  []*LemmaDef
 	GlobTab map[*ssa.Global]*GlobalTable
 	ErrGlobals []*ssa.Global
+	mu         sync.Mutex
+	tabMu      sync.Mutex
 }
 
 func funcKey(f *ssa.Function) string {
@@ -138,7 +141,15 @@ func loadProgram(repo string, extraPkgs ...string) (*Program, error) {
 	return P, nil
 }
 
+func (P *Program) strSnapshot() []string {
+	P.mu.Lock()
+	defer P.mu.Unlock()
+	return append([]string{}, P.StrList...)
+}
+
 func (P *Program) internString(s string) int {
+	P.mu.Lock()
+	defer P.mu.Unlock()
 	if c, ok := P.Strings[s]; ok {
 		return c
 	}
@@ -215,6 +226,8 @@ type GlobalTable struct {
 }
 
 func (P *Program) globalTable(g *ssa.Global) *GlobalTable {
+	P.tabMu.Lock()
+	defer P.tabMu.Unlock()
 	if t, ok := P.GlobTab[g]; ok {
 		return t
 	}
